@@ -5,6 +5,8 @@
 // Level 2 (whole bus: library instances + reference ISO 11783-5 nodes, atomic broadcast, inboxes):
 //   bus <t32|t64> <now> <L<mode>:<src>:<namehex>[,<src>:<namehex>...] | F<selfcfg>:<pref>:<namehex>>...
 //   d <i> (node i processes the head of its inbox) | p <i> (poll/start) | cmd <i> <dst> <namehex> <addr> | rs <i> | t <ms> | q
+// The generators read the indication (`changed`) after EVERY step in the exhaustion ("wall") cases and in half of the other
+// cases: whenever an own address differs from the one before the step, the read taken right after that step must return 1.
 // Observation: get [i] -> addresses names end-of-search;  changed [i] -> ReadResetAddressChanged()
 // Output of an acting op:  <claim frames sent> | <addresses of the node> | <inbox length of every node>
 // (frames other than PGN 60928 - heartbeat, ISO-TP flow control - are checked by the oracle and not printed).
@@ -412,9 +414,12 @@ static void level1Case(Rng &R) {
   // usually open first
   if (R.chance(9, 10)) { exec("t " + std::to_string(R.range(1, 3))); exec("poll"); exec("t " + std::to_string(R.range(199, 203))); exec("poll"); if (R.chance(1, 2)) { exec("t 251"); exec("poll"); } }
   int nops = (int)R.range(10, 60);
+  bool readEvery = R.chance(1, 2);     // the application reads the indication after every step: no stale latch can hide a missing report
+  if (readEvery) exec("changed");
   for (int k = 0; k < nops; k++) {
     unsigned r = (unsigned)R.below(100);
     int d = (int)R.below(nd);
+    if (readEvery && k > 0) exec("changed");
     if (r < 40) {          // a claim, mostly for an address we hold
       unsigned a = R.chance(4, 5) ? N.src(d) : (R.chance(1, 2) ? pickAddr(R, window) : (unsigned)R.range(250, 255));
       uint64_t mine = N.name(d), nm;
@@ -447,12 +452,17 @@ static void level1Exhaust(Rng &R) {
   for (int i = 0; i < nd; i++) l += " " + std::to_string((start + 3 * i) % 252) + ":" + hx(mkName(R, 20 + i));
   exec(l); exec("t 1"); exec("poll"); exec("t 201"); exec("poll");
   Node &N = *B[0].n; int d = (int)R.below(nd); bool expire = R.chance(1, 3);
-  for (int k = 0; k < 300 && N.src(d) != 254; k++) {
+  exec("changed");
+  // a wall of lower NAMEs: every address the device tries is claimed back, 252 frames until the search is exhausted;
+  // the indication is read after EVERY step, so each move (and the final one to 254) must be reported by itself
+  for (int k = 0; k < 600 && N.src(d) != 254; k++) {
     exec("claim " + std::to_string(N.src(d)) + " " + hx(0x1000 + k));
-    if (expire && k == 100) { exec("t 251"); exec("poll"); }     // a successful claim in between moves the end-of-search address
-    if (k % 50 == 0) exec("changed");
+    exec("changed");
+    if (expire && k == 100) { exec("t 251"); exec("poll"); exec("changed"); }     // a successful claim in between moves the end-of-search address
   }
-  exec("get"); exec("changed"); exec("claim 254 1"); exec("t 300"); exec("poll"); exec("restart"); exec("get"); exec("changed");
+  if (N.src(d) != 254) C.fail("harness:wall-not-exhausted", "device %d still at %u after 600 lost arbitrations", d, N.src(d));
+  exec("get"); exec("changed"); exec("claim 254 1"); exec("changed"); exec("t 300"); exec("poll"); exec("changed");
+  exec("restart"); exec("changed"); exec("get");
   C.count("exhaust_cases");
 }
 
@@ -486,6 +496,8 @@ static bool allEmpty() { for (auto &b : B) if (!b.inbox.empty()) return false; r
 struct CmdPlan { bool use = false; uint64_t name; unsigned addr; unsigned dst; };
 
 // run one schedule of configuration ns; returns false if the step budget ran out before quiescence
+static bool g_readEvery = false;   // level 2: every library node's application reads the indication after each of its steps
+static void readAll() { if (g_readEvery) for (size_t i = 0; i < B.size(); i++) if (B[i].lib) exec("changed " + std::to_string(i)); }
 static bool runSchedule(const std::vector<NodeSpec> &ns, uint64_t origin, Chooser &ch, const CmdPlan &cmd, int maxSteps, bool randomTimes) {
   exec(busLine(ns, origin));
   bool cmdLeft = cmd.use; int steps = 0;
@@ -511,6 +523,7 @@ static bool runSchedule(const std::vector<NodeSpec> &ns, uint64_t origin, Choose
       cmdLeft = false;
       for (size_t i = 0; i < B.size(); i++) if (B[i].onBus()) exec("cmd " + std::to_string(i) + " " + std::to_string(cmd.dst) + " " + hx(cmd.name) + " " + std::to_string(cmd.addr));
     }
+    readAll();
   }
   bool done = allEmpty() && !anyTimer();
   exec("q");
@@ -540,6 +553,7 @@ static void level2Exhaustive(Rng &R, int nClaimants, int window, long maxSched) 
   std::vector<NodeSpec> ns = smallConfig(R, nClaimants, window);
   CmdPlan cmd; cmd.use = R.chance(1, 3);
   if (cmd.use) { auto &n = ns[R.below(ns.size())]; auto &d = n.devs[R.below(n.devs.size())]; cmd.name = d.second; cmd.addr = R.chance(1, 2) ? ns[R.below(ns.size())].devs[0].first : pickAddr(R, window); cmd.dst = 255; }
+  g_readEvery = R.chance(1, 2);
   Chooser ch; ch.maxDepth = 40; long n = 0; bool complete = false;
   do { runSchedule(ns, nextOrigin(R), ch, cmd, 200, false); n++; if (!ch.next()) { complete = true; break; } } while (n < maxSched);
   C.count(complete ? "exhaustive_configs_complete" : "exhaustive_configs_truncated"); C.count("exhaustive_schedules", n);
@@ -551,11 +565,12 @@ static void level2Sampled(Rng &R) {
   std::vector<NodeSpec> ns = smallConfig(R, nClaimants, window);
   CmdPlan cmd; cmd.use = R.chance(1, 2);
   if (cmd.use) { auto &n = ns[R.below(ns.size())]; auto &d = n.devs[R.below(n.devs.size())]; cmd.name = d.second; cmd.addr = R.chance(1, 2) ? ns[R.below(ns.size())].devs[0].first : pickAddr(R, window); cmd.dst = 255; }
+  g_readEvery = R.chance(1, 2);
   Chooser ch; ch.rnd = &R;
   if (!runSchedule(ns, nextOrigin(R), ch, cmd, 400, true)) {
     // let it finish: deliver in FIFO order, let the timers run out
     for (int round = 0; round < 2000 && !(allEmpty() && !anyTimer()); round++) {
-      bool any = false; for (size_t i = 0; i < B.size(); i++) if (!B[i].inbox.empty()) { exec("d " + std::to_string(i)); any = true; }
+      bool any = false; for (size_t i = 0; i < B.size(); i++) if (!B[i].inbox.empty()) { exec("d " + std::to_string(i)); any = true; readAll(); }
       if (!any) { exec("t 251"); for (size_t i = 0; i < B.size(); i++) if (B[i].lib && B[i].n->isOpen()) exec("p " + std::to_string(i)); }
     }
     if (!(allEmpty() && !anyTimer())) C.fail("C03:no-convergence", "no quiescent state after 2000 further rounds");
@@ -572,12 +587,13 @@ static void level2Wall(Rng &R, int nLibDevs) {
   ns.push_back(l);
   for (unsigned a = 0; a <= 251; a++) { NodeSpec f; f.lib = false; f.mode = 0; f.selfCfg = false; f.started = true; f.devs.push_back({a, 0x1000 + a}); ns.push_back(f); }
   exec(busLine(ns, nextOrigin(R)));
-  exec("t 1"); exec("p 0"); exec("t 201"); exec("p 0");
+  exec("t 1"); exec("p 0"); exec("t 201"); exec("p 0"); exec("changed 0");
   for (int round = 0; round < 400000 && !allEmpty(); round++) {
     // the library node answers immediately, the others in a seeded order
-    if (!B[0].inbox.empty() && R.chance(2, 3)) { exec("d 0"); continue; }
+    if (!B[0].inbox.empty() && R.chance(2, 3)) { exec("d 0"); exec("changed 0"); continue; }
     std::vector<size_t> ne; for (size_t i = 0; i < B.size(); i++) if (!B[i].inbox.empty()) ne.push_back(i);
-    exec("d " + std::to_string(ne[R.below(ne.size())]));
+    size_t pick = ne[R.below(ne.size())];
+    exec("d " + std::to_string(pick)); if (pick == 0) exec("changed 0");
   }
   exec("q"); exec("changed 0");
   for (int d = 0; d < nLibDevs; d++) if (B[0].n->src(d) != 254) C.fail("C03:wall-not-null", "device %d ended at %u although every address is held by a lower NAME", d, B[0].n->src(d));
